@@ -257,17 +257,34 @@ def _profile_blocks(path):
     return files
 
 
-def _func_starts(profile):
-    """{file: [(line, name)]} from `go tool cover -func` (needs the harness module to resolve the import paths)"""
-    rc, so, se = run(["go", "tool", "cover", "-func=" + profile], cwd=HARNESS, env=GOENV, timeout=600)
-    starts = {}
-    for line in so.splitlines():
-        m = re.match(r"(.+\.go):(\d+):\s+(\S+)\s+[\d.]+%$", line.strip())
-        if m:
-            starts.setdefault(m.group(1), []).append((int(m.group(2)), m.group(3)))
-    for v in starts.values():
-        v.sort()
-    return starts, (se if rc != 0 else "")
+def _src_path(f):
+    """import-path file name of the profile -> source file under /repo"""
+    if f.startswith("stgutgmain/"):
+        return os.path.join(REPO, f[len("stgutgmain/"):])
+    return os.path.join(REPO, "src", f)
+
+
+_FUNC_RE = re.compile(r"^func\s+(?:\(\s*\w*\s*\*?\s*([\w.]+)[^)]*\)\s*)?(\w+)")
+
+
+def _func_starts(files):
+    """{file: [(line, name)]}: the top-level `func` declarations of the (gofmt-ed) sources, methods as Recv.Name.
+    (`go tool cover -func` would do, but it gives up at the first package it cannot resolve from the harness module —
+    stgutgmain — and leaves the rest of the profile without function names.)"""
+    starts, missing = {}, []
+    for f in files:
+        try:
+            lines = open(_src_path(f), errors="replace").read().split("\n")
+        except OSError:
+            missing.append(f)
+            continue
+        out = []
+        for n, line in enumerate(lines, 1):
+            m = _FUNC_RE.match(line)
+            if m:
+                out.append((n, (m.group(1) + "." if m.group(1) else "") + m.group(2)))
+        starts[f] = out
+    return starts, ("no source for " + ", ".join(missing[:5]) if missing else "")
 
 
 def cover_report(prop_id, max_blocks=40):
@@ -280,8 +297,8 @@ def cover_report(prop_id, max_blocks=40):
     if rc != 0 or not os.path.exists(profile):
         return dict(error="go tool covdata failed: " + (se or so)[-400:])
     blocks = _profile_blocks(profile)
-    starts, err = _func_starts(profile)
     pats = anchored_files(prop_id)
+    starts, err = _func_starts(sorted(f for f in blocks if any(fnmatch.fnmatchcase(f, p) for p in pats)))
     funcs, uncovered, absent = [], [], []
     for pat in pats:
         hit = sorted(f for f in blocks if fnmatch.fnmatchcase(f, pat))
@@ -312,7 +329,7 @@ def cover_report(prop_id, max_blocks=40):
                functions_never_entered=["%s:%s" % (x["file"], x["func"]) for x in funcs if x["statements"] and not x["covered"]],
                files_not_in_profile=absent, profile=profile)
     if err:
-        rep["error"] = "go tool cover -func: " + err[-300:]
+        rep["error"] = err[-300:]
     return rep
 
 
@@ -328,15 +345,21 @@ def cover_print(prop_id, rep):
     by_file = {}
     for x in rep["anchored_functions"]:
         by_file.setdefault(x["file"], []).append(x)
+    full = 0
     for f, xs in by_file.items():
         tot, cov = sum(x["statements"] for x in xs), sum(x["covered"] for x in xs)
         part = [x for x in xs if x["covered"] < x["statements"]]
+        if not part and len(by_file) > 12:
+            full += 1       # long file lists (ngapType/*.go, nasType/*.go): files that are covered completely are only counted
+            continue
         log("  %-58s %5d/%-5d %5.1f %%  functions below 100 %%: %d of %d"
             % (f, cov, tot, 100.0 * cov / tot if tot else 100.0, len(part), len(xs)))
-        for x in part[:25]:
+        for x in part[:12]:
             log("      %-50s %4d/%-4d %5.1f %%" % (x["func"], x["covered"], x["statements"], x["percent"]))
-        if len(part) > 25:
-            log("      ... %d more" % (len(part) - 25))
+        if len(part) > 12:
+            log("      ... %d more" % (len(part) - 12))
+    if full:
+        log("  (%d more anchored files at 100 %%)" % full)
     for p in rep["files_not_in_profile"]:
         log("  %-58s not in the profile (no statements, or not linked into the harness)" % p)
 
